@@ -738,6 +738,6 @@ impl<'a> Peripheral<'a> {
 }
 
 #[cfg(kani)]
-mod verif {
+pub(crate) mod verif {
     include!(concat!(env!("PROFIRUST_VERIF_HARNESS"), "/dp_peripheral.rs"));
 }
